@@ -185,7 +185,8 @@ theorem schema_spec_up (g : Globals) (hg : g.dialect = .mysql) (hio : g.ignoreOr
       (∀ dc : List String, (∀ c ∈ dc, c ∉ tbN.colNames) →
         ∀ s ∈ tbN.idxs, ∀ o ∈ tbO.idxs, o.name = s.name → o ≠ s → ∃ c ∈ o.cols, c ∉ dc)) :
     ∃ d out, loadAndDiff g old new = .ok d ∧ d.migrationUp g = .ok (d, out) ∧
-      ∃ db', execAll false dbO out.flatten = some db' ∧ db'.equiv dbN = true := by
+      (∃ db', execAll false dbO out.flatten = some db' ∧ db'.equiv dbN = true) ∧
+      ∀ s ∈ out.flatten, justified dbO dbN s = true := by
   have hoc : old.all Stmt.colSafe = true :=
     List.all_eq_true.mpr (fun s hs => Stmt.colSafe_of_elemSafe s (List.all_eq_true.mp ho s hs))
   have hnc : new.all Stmt.colSafe = true :=
@@ -217,7 +218,7 @@ theorem schema_spec_up (g : Globals) (hg : g.dialect = .mysql) (hio : g.ignoreOr
   have huniq : ∀ a ∈ d.tables, ∀ b ∈ d.tables, a.name = b.name → a = b := fun a ha b hb e =>
     eq_of_name_nodup (fun x : Table => x.name) hdinv.tbls.nodup ha hb e
   -- every record of the diffed migration has a group with the right effect on the reference engine
-  have hgroup : ∀ td ∈ d.tables, ∃ ss, Migration.TableOut g td ss ∧
+  have hgroup : ∀ td ∈ d.tables, ∃ ss, Migration.TableOut g td ss ∧ (∀ s ∈ ss, justified dbO dbN s = true) ∧
       ∀ db0 : DB, (db0.map (·.name)).Nodup → db0.find td.name = dbO.find td.name →
         ∃ db1, execAll false db0 ss = some db1 ∧ GroupGoal dbN td.name (db1.find td.name) ∧
           (∀ u, u ≠ td.name → db1.find u = db0.find u) ∧ (db1.map (·.name)).Nodup := by
@@ -249,7 +250,21 @@ theorem schema_spec_up (g : Globals) (hg : g.dialect = .mysql) (hio : g.ignoreOr
           apply walkFk_empty
           rw [hfe, hnofk tbN (List.mem_append_right _ (mem_of_find hfN)), hnofk tbO (List.mem_append_left _ (mem_of_find hfO))]
           rfl
-        refine ⟨cs ++ is ++ td2.migrationForeignKeyUp dc, ⟨cs, dc, is, hcs, his, rfl⟩, ?_⟩
+        have hjust : ∀ s ∈ cs ++ is ++ td2.migrationForeignKeyUp dc, justified dbO dbN s = true := by
+          obtain ⟨td4, h41, h42, cs4, dc4, is4, hcs4, his4, hj4⟩ := table_stmts_justified g hg hio rc old new dbO dbN ho hn hpo hpn heo hen d hd
+            td2.name tbO tbN hfO hfN hne hpk
+          have := huniq td4 h41 td2 htd h42
+          subst this
+          rw [hcs] at hcs4
+          have e1 := (Prod.mk.inj (Except.ok.inj hcs4)).1
+          have e2 := (Prod.mk.inj (Except.ok.inj hcs4)).2
+          subst e1 e2
+          rw [his] at his4
+          have e3 := Except.ok.inj his4
+          subst e3
+          rw [hfs, List.append_nil]
+          exact hj4
+        refine ⟨cs ++ is ++ td2.migrationForeignKeyUp dc, ⟨cs, dc, is, hcs, his, rfl⟩, hjust, ?_⟩
         intro db0 hnd0 hf0
         obtain ⟨db1, tb1, he1, hf1, hc1, hi1, hp1, hn1, hk1, hfr1, hnm1⟩ := hrun db0 hnd0 hf0
         refine ⟨db1, by rw [hfs, List.append_nil]; exact he1, ?_, hfr1, by rw [hnm1]; exact hnd0⟩
@@ -268,11 +283,12 @@ theorem schema_spec_up (g : Globals) (hg : g.dialect = .mysql) (hio : g.ignoreOr
           | true =>
             have := (has_iff dbO td.name).mp h
             exact absurd this ((find_none_iff dbO td.name).mp hfO)
-        obtain ⟨td', htd', hn', _, cs, is, hcs, his, hfs, hrun⟩ := created_table_spec g hg rc old new dbO dbN ho hn hpo hpn heo hen d hd
+        obtain ⟨td', htd', hn', _, cs, is, hcs, his, hfs, hjc, hrun⟩ := created_table_spec g hg rc old new dbO dbN ho hn hpo hpn heo hen d hd
           td.name tbN hfN hnew (hnofk tbN (List.mem_append_right _ (mem_of_find hfN)))
         have := huniq td' htd' td htd hn'
         subst this
-        refine ⟨cs ++ is ++ td'.migrationForeignKeyUp [], ⟨cs, [], is, hcs, his, rfl⟩, ?_⟩
+        refine ⟨cs ++ is ++ td'.migrationForeignKeyUp [], ⟨cs, [], is, hcs, his, rfl⟩,
+          (by rw [hfs, List.append_nil]; exact hjc), ?_⟩
         intro db0 hnd0 hf0
         have hnot : db0.has td'.name = false := by
           cases h : db0.has td'.name with
@@ -312,10 +328,19 @@ theorem schema_spec_up (g : Globals) (hg : g.dialect = .mysql) (hio : g.ignoreOr
           rw [hOn]
           show ot.name ∈ mo.tblNames
           exact List.mem_map_of_mem (f := fun x : Table => x.name) (List.mem_filter.mp hot).1
-      refine ⟨[.dropTable td.name], ⟨[.dropTable td.name], [], [], ?_, ?_, ?_⟩, ?_⟩
+      refine ⟨[.dropTable td.name], ⟨[.dropTable td.name], [], [], ?_, ?_, ?_⟩, ?_, ?_⟩
       · unfold Table.migrationColumnUp; rw [hrem]; rfl
       · unfold Table.migrationIndexUp; rw [hrem]; rfl
       · unfold Table.migrationForeignKeyUp; rw [hrem]; rfl
+      · intro s hs
+        rw [List.mem_singleton.mp hs]
+        show (dbO.has td.name && !dbN.has td.name) = true
+        have h1 : dbO.has td.name = true := (has_iff dbO td.name).mpr hinO
+        have h2 : dbN.has td.name = false := by
+          cases h : dbN.has td.name with
+          | false => rfl
+          | true => exact absurd ((has_iff dbN td.name).mp h) ((find_none_iff dbN td.name).mp hfN)
+        rw [h1, h2]; rfl
       · intro db0 hnd0 hf0
         have hhas : db0.has td.name = true := by
           cases hfo : dbO.find td.name with
@@ -361,6 +386,7 @@ theorem schema_spec_up (g : Globals) (hg : g.dialect = .mysql) (hio : g.ignoreOr
       exact List.mem_map_of_mem (f := fun x : Table => x.name) (List.mem_filter.mp hot).1
   -- the groups, in the order of the records
   obtain ⟨steps, hsteps, hP⟩ := list_choice (fun (td : Table) (ss : List Stmt) => Migration.TableOut g td ss ∧
+      (∀ s ∈ ss, justified dbO dbN s = true) ∧
       ∀ db0 : DB, (db0.map (·.name)).Nodup → db0.find td.name = dbO.find td.name →
         ∃ db1, execAll false db0 ss = some db1 ∧ GroupGoal dbN td.name (db1.find td.name) ∧
           (∀ u, u ≠ td.name → db1.find u = db0.find u) ∧ (db1.map (·.name)).Nodup) d.tables hgroup
@@ -393,11 +419,17 @@ theorem schema_spec_up (g : Globals) (hg : g.dialect = .mysql) (hio : g.ignoreOr
     (by
       intro q hq db0 hnd0 hf0
       obtain ⟨p, hp, rfl⟩ := List.mem_map.mp hq
-      exact (hP p hp).2 db0 hnd0 hf0)
+      exact (hP p hp).2.2 db0 hnd0 hf0)
   have hflat2 : (steps.map (fun p => (p.1.name, p.2))).flatMap (·.2) = steps.flatMap (·.2) := by
     rw [List.flatMap_map]
   rw [hflat2, ← hflat, ← hout] at hrun
-  refine ⟨d, outU, hd, hU, db', hrun, ?_⟩
+  refine ⟨d, outU, hd, hU, ⟨db', hrun, ?_⟩, ?_⟩
+  rotate_left
+  · -- every printed statement is justified by a difference
+    intro s hs
+    rw [hout, hflat] at hs
+    obtain ⟨p, hp, hsp⟩ := List.mem_flatMap.mp hs
+    exact (hP p hp).2.1 s hsp
   -- the result is equivalent to the new schema
   have hfinD : ∀ td ∈ d.tables, GroupGoal dbN td.name (db'.find td.name) := by
     intro td htd
